@@ -696,9 +696,9 @@ def regen(lib=None):
     spec = ['# C11 I/O failures are never silently dropped.  Model: coq/Fault.v (policy language, abstract interpreter,',
             '# mpi2nc, propagation table) instantiated with coq/Gen_iosites.v (tools/tr_iosites.py, regenerated from the',
             '# sources as built on every run).  no_silent_drop s: for every MPI error class, the function containing I/O',
-            '# site s returns an error and so does every function on every static call path above it (up to ncmpi_*).',
-            '# *_refuted: the present code loses the error (witness class or losing link site); *_drops: exactly which',
-            '# classes are lost in the function; *_partial: what is propagated nevertheless.',
+            '# site s returns an error and so does every function on every static call path above it, up to the ncmpi_ entry points.',
+            '# xxx_refuted: the present code loses the error (witness class or losing link site); xxx_drops: exactly which',
+            '# classes are lost in the function; xxx_partial: what is propagated nevertheless.',
             'import Proofs_Fault',
             'thm C11_all_classes_enumerated all_classes_complete',
             'thm C11_mpi2nc_matches_source mpi2nc_matches_source',
@@ -766,17 +766,17 @@ def regen(lib=None):
                     badhop = (k, a, b)
         Cn = '(chain_of "%s")' % name
         if badhop is None:
-            o.append('Lemma chain_%s : chain_reaches_api link_sites %s.' % (nm, Cn))
+            o.append('Lemma ch_%s : chain_reaches_api link_sites %s.' % (nm, Cn))
             o.append('Proof. apply chain_reaches_api_intro; [vm_compute; reflexivity | apply forallb_hops_bad; vm_compute; reflexivity]. Qed.\n')
-            spec.append('thm chain_%s chain_%s' % (nm, nm))
+            spec.append('thm chain_%s ch_%s' % (nm, nm))
         else:
             k, a, b = badhop
-            o.append('Lemma chain_%s_refuted : ~ chain_reaches_api link_sites %s.' % (nm, Cn))
+            o.append('Lemma ch_%s_refuted : ~ chain_reaches_api link_sites %s.' % (nm, Cn))
             o.append('Proof. apply (chain_refute %s %d "%s" "%s"); vm_compute; reflexivity. Qed.\n' % (Cn, k, a, b))
-            o.append('Lemma chain_%s_partial : chain_reaches_api_except link_sites %s bad_link_ids.' % (nm, Cn))
+            o.append('Lemma ch_%s_partial : chain_reaches_api_except link_sites %s bad_link_ids.' % (nm, Cn))
             o.append('Proof. apply chain_reaches_api_except_intro; vm_compute; reflexivity. Qed.\n')
-            spec.append('thm chain_%s_refuted chain_%s_refuted' % (nm, nm))
-            spec.append('thm chain_%s_partial chain_%s_partial' % (nm, nm))
+            spec.append('thm chain_%s_refuted ch_%s_refuted' % (nm, nm))
+            spec.append('thm chain_%s_partial ch_%s_partial' % (nm, nm))
     open(pf, 'w').write(part1 + '\n'.join(o) + '\n')
     open(os.path.join(C.COQ, 'props', 'C11.spec'), 'w').write('\n'.join(spec) + '\n')
     rc, out = C.sh(['coqc', '-Q', '.', 'Pnc', '-w', '-all', 'Proofs_Fault.v'], cwd=C.COQ, timeout=3000)
